@@ -267,6 +267,13 @@ def fire (txs : List Tx) (lks : List Locks) (s : Sim) (i : Nat) : Sim :=
       let (real', l') := stepOn i (fun _ => true) step s.real st.loc
       { s with real := real', sts := s.sts.set i { st with pc := st.pc + 1, loc := l' } }
 
+/-- run a schedule: a list of transaction indices, each of which must be enabled when its turn
+    comes (`none` if the schedule asks for an event that would block) -/
+def runSched (txs : List Tx) (lks : List Locks) : List Nat → Sim → Option Sim
+  | [], s => some s
+  | i :: rest, s =>
+    if i < txs.length ∧ enabledTx txs lks s i = true then runSched txs lks rest (fire txs lks s i) else none
+
 def enabledList (txs : List Tx) (lks : List Locks) (s : Sim) : List Nat :=
   (List.range txs.length).filter (enabledTx txs lks s)
 
